@@ -60,3 +60,11 @@ def version_ge_14(s):
 
 def comma_parts(s):
     return s.split(",")
+
+
+def line_fields(data):
+    return data.rstrip().split(";")
+
+
+def no_semicolon_clean_end(p):
+    return ";" not in p and p.rstrip() == p
